@@ -54,13 +54,14 @@ def classify(case, kind):
 
 
 def _link_repo():
-    """harness/src/bin/c16.rs includes cli/src/builtins.rs by a path relative to the harness; under VERIF_REPO the
-    harness is copied to <alt>/harness, so <alt>/repo must point at the worktree"""
+    """harness/src/bin/c16.rs includes cli/src/builtins.rs through the symlink `c16_repo` next to it (-> /repo).
+    Under VERIF_REPO the harness is copied to <alt>/harness (symlinked directories are not copied): point the
+    link there at the worktree, so that the in-process remove_builtins is the worktree's."""
     if vlib.REPO == "/repo":
         return
-    alt = os.path.dirname(vlib.HARNESS)
-    os.makedirs(alt, exist_ok=True)
-    link = os.path.join(alt, "repo")
+    d = os.path.join(vlib.HARNESS, "src", "bin")
+    os.makedirs(d, exist_ok=True)
+    link = os.path.join(d, "c16_repo")
     if os.path.islink(link):
         if os.readlink(link) == vlib.REPO:
             return
